@@ -435,6 +435,56 @@ mod nested {
     }
 }
 
+/// The unary stateless functions over the f32 values themselves: every `stride`-th bit pattern of the
+/// finite f32 numbers in the chunk `part` of `parts` (stride 1 = every finite f32), one instance
+/// reused throughout (a stateless function must not care), compared bit-exactly with the function
+/// evaluated in f32. No short alphabet can stand in for this: an evaluation carried out in another
+/// precision and rounded back agrees with the f32 function on most values and differs by one ulp on
+/// a few per cent of them.
+fn f32_sweep(spec: &Spec, stride: u32, part: u32, parts: u32, st: &mut Stats, sink: &Sink) {
+    let Ok(mut v) = crate::explore::guard(|| build::<f32>(spec)) else { return };
+    st.configs += 1;
+    let lo = (u32::MAX as u64 + 1) * part as u64 / parts as u64;
+    let hi = (u32::MAX as u64 + 1) * (part as u64 + 1) / parts as u64;
+    let mut bits = lo + (stride as u64 - lo % stride as u64) % stride as u64;
+    let mut n = 0u64;
+    while bits < hi {
+        let x = f32::from_bits(bits as u32);
+        bits += stride as u64;
+        if !x.is_finite() {
+            continue;
+        }
+        n += 1;
+        let r = crate::explore::guard(|| {
+            v.update(x);
+            v.last()
+        });
+        let want = match spec.kind {
+            Kind::Tanh => Some(x.tanh()),
+            Kind::GTE => Some(if x >= spec.p[0] as f32 { x } else { spec.p[0] as f32 }),
+            Kind::LTE => Some(if x <= spec.p[0] as f32 { x } else { spec.p[0] as f32 }),
+            Kind::Echo => Some(x),
+            _ => unreachable!(),
+        };
+        match r {
+            Ok(got) => {
+                let ok = if matches!(spec.kind, Kind::GTE | Kind::LTE) { same_mod_zero(got, want) } else { crate::scalar::opt_same(got, want) };
+                if !ok {
+                    sink.push(Violation::new("C14", spec, "pointwise", "f32", &[x as f64], format!("on the f32 value {:e} (bits {:#010x}) reports {} but the function evaluated in f32 gives {}", x, x.to_bits(), opt_key(got), opt_key(want))));
+                    break;
+                }
+            }
+            Err(m) => {
+                sink.push(Violation::new("C14", spec, "panicked", "f32", &[x as f64], m));
+                break;
+            }
+        }
+    }
+    st.transitions += n;
+    st.oracle_evals += n;
+    st.states += n;
+}
+
 pub fn run(ctx: &Ctx) -> CheckOutput {
     let quick = ctx.tier == Tier::Quick;
     let depth = if quick { 6 } else { 9 };
@@ -492,6 +542,26 @@ pub fn run(ctx: &Ctx) -> CheckOutput {
             nested::run_row(i, &Z5, d, &mut st, &sink);
             JobOut { stats: st, viols: sink.take(), samples: vec![json!({"explorer":"TREE (by replay)","clause":"statically typed combinator over every ordered pair of 7 children, stand-alone and inside GTE/LTE/Tanh/Sma(1)","left child row":i,"alphabet":Z5,"depth":d})] }
         }));
+    }
+    // the unary stateless functions over the f32 numbers themselves
+    {
+        let stride: u32 = if quick { 1021 } else { 1 };
+        let parts = 32u32;
+        let e = Spec::echo;
+        for spec in [Spec::un(Kind::Tanh, 0, e()), Spec::unp(Kind::GTE, 0, vec![0.5], e()), Spec::unp(Kind::LTE, 0, vec![-0.5], e()), e()] {
+            // (every finite f32 for Tanh in the thorough tier; a stride for the comparisons, whose
+            // behaviour can only change at the clip point, which the ladder already brackets)
+            let stride = if spec.kind == Kind::Tanh { stride } else { stride.max(257) };
+            for part in 0..parts {
+                let spec = spec.clone();
+                jobs.push(Box::new(move || {
+                    let mut st = Stats::default();
+                    let sink = Sink::new();
+                    f32_sweep(&spec, stride, part, parts, &mut st, &sink);
+                    JobOut { stats: st, viols: sink.take(), samples: if part == 0 { vec![json!({"explorer":"SWEEP","scalar":"f32","view":spec.name(),"domain":"every finite f32 bit pattern","stride":stride})] } else { vec![] } }
+                }));
+            }
+        }
     }
     // the stateless functions over a ladder of magnitudes (depth 2: they have no memory to fill)
     {
